@@ -84,7 +84,7 @@ theorem setOffset_moved (c : Cls) (s : SecBuf) (v : BitVec 64) : SecBuf.Moved s 
 
 theorem setOffset_offset (c : Cls) (s : SecBuf) (v : BitVec 64) (hi : s.index ≠ 0) (hf : fitsB c v = true) :
     (setOffset c s v).offset = v := by
-  unfold setOffset
+  rw [setOffset_eq]
   have : (s.index != 0) = true := by simpa using hi
   simp only [this, if_true]
   exact truncA_of_fits c v hf
@@ -119,8 +119,9 @@ theorem layoutLoose_eq_spec (c : Cls) (segs : List Seg) (l : List SecBuf) (i : N
   | nil => simp [layoutLoose, looseSpec]
   | cons s rest ih =>
     unfold layoutLoose looseSpec
+    simp only [lsws_advance_eq, setOffsetLoose_eq]
     split
-    · simp only [lsws_advance_eq, ih, List.reverse_cons, List.append_assoc, List.singleton_append]
+    · simp only [ih, List.reverse_cons, List.append_assoc, List.singleton_append] <;> rfl
     · simp only [ih, List.reverse_cons, List.append_assoc, List.singleton_append]
 
 /-- no wrap-around (and ELF32 fit) along `layout_sections_without_segments` -/
@@ -3102,7 +3103,7 @@ theorem saveSection_facts (c : Cls) (enc : Enc) (shoff : BitVec 64) (shentsize :
       b.offset.toInt.toNat + ((b.data.getD []).take b.size.toNat).length ≤
         (saveSection c enc shoff shentsize os b).content.length) := by
   unfold saveSection at h ⊢
-  simp only at h ⊢
+  simp only [secWritesData_eq] at h ⊢
   generalize hhp : shoff.toInt + (Int.ofNat shentsize.toNat) * (Int.ofNat b.index) = hp at *
   by_cases hc : (b.stype != BitVec.ofNat 32 SHT_NOBITS && b.stype != BitVec.ofNat 32 SHT_NULL && b.size != 0 && b.data.isSome) = true
   · simp only [hc, if_true] at h ⊢
